@@ -266,6 +266,11 @@ class Engine(
                     # slice that might exist, and save those for the new outer
                     # query, since putting those in a subquery would destroy
                     # the ordering.
+                    if not select.sort.columns_required <= select.columns:
+                        # ... unless the sort uses columns that are only
+                        # available inside the existing SELECT DISTINCT, in
+                        # which case it cannot be moved to the outer query.
+                        return Select.apply_skip(select, projection=operation)
                     subquery = select.reapply_skip(sort=None, slice=None)
                     return Select.apply_skip(
                         subquery,
